@@ -9,6 +9,8 @@ package zap
 import (
 	"fmt"
 	"hash/crc32"
+
+	"github.com/blevesearch/vellum"
 )
 
 type vSkip struct{}
@@ -136,3 +138,6 @@ func vParam(name string, def int) int {
 	}
 	return def
 }
+
+// vAlwaysMatch returns vellum's match-everything automaton (a native library object under the engine).
+func vAlwaysMatch() vellum.Automaton { return &vellum.AlwaysMatch{} }
